@@ -66,7 +66,12 @@ CHECKS["C16"] = {
             "AverageLearner1D model Avg1DFull.lean (Learner1D loss machinery, distances, rescaled errors, all three branches of ask): "
             "for every state the ask rule (under-sampled member / largest rescaled error above delta and below max_samples / "
             "Learner1D's new point), for every history rescaled_error sorted with rescaled_error[x] = error[x] / min neighbouring "
-            "distance, distances and running means current, sampling part = the sampling model (statistics carry over). Same "
+            "distance, distances and running means current, sampling part = the sampling model (statistics carry over); the inherited loss tables "
+            "(Props/C16Loss.lean): in every reachable state their keys are exactly the neighbouring pairs of data / data + pending abscissae, both "
+            "stay in container order and loss() is their head entry; a re-sample recomputes every interval whose loss depends on the changed mean "
+            "(nn = 1 included). The VALUES are exact only under a guard: the three AverageLearner1D rescale loops iterate the live container, and a "
+            "custom loss that grows with the output scale leaves a stale entry (two kernel-checked counterexamples, replayed on the real class; no "
+            "shipped loss grows with the scale, outside this property). Same "
             "definitions run at Float in lock-step with the real learners (full model: bit for bit incl. both loss tables, "
             "rescaled_error in container order, ask points/improvements/branch); statistics, rescaled errors and the ask rule "
             "re-derived on the real objects. One recorded finding (literal 'goes to an abscissa with fewer than min_samples' reading).",
@@ -215,7 +220,12 @@ CHECKS["C20"] = {
             "under translation, relabelling, rigid motions, homogeneity; sanity of the tolerances read from the live modules); on top of the "
             "generated circumcentre and in-triangle test the hand model Choose.lean of learnerND.choose_point_in_simplex for triangles: result = "
             "centroid or midpoint of a longest edge in transformed coordinates, a convex combination of the vertices, centroid iff the circumcentre "
-            "passes the eps-test (eps = 0: iff not obtuse), equivariance. "
+            "passes the eps-test (eps = 0: iff not obtuse), equivariance; and Prims2.lean / Props/C20More.lean: Learner2D triangle area (= |det|/2 = "
+            "nd_volume2, relabelling, rigid motions, degree 2), uniform loss, choose_point_in_triangle (centroid or first longest edge's midpoint, "
+            "convex combination, the badness threshold), triangle-surface loss (Gram determinant / 4), 1-D resolution cut-offs (0 / inf / loss with "
+            "the code's strictness) and curvature loss (degrees 2, 1, 1), LearnerND default_loss on a 2-D domain (area of the embedded triangle "
+            "via the Cayley-Menger determinant), orientation (antisymmetric, translation invariant, sign of the determinant above the cut, NOT "
+            "scale invariant: kernel-checked witness with the exact double exp(-50) - the recorded finding). "
             "Tie: the same definitions evaluated at Float agree bit for bit (<= 4 ulp where libm hypot is involved) with the "
             "real functions on seeded inputs. Search: exact Fraction re-computation of every primitive's meaning incl. the "
             "numpy general-dimension branches, N-D/2-D losses and quadrature constants, dims 1-5.",
